@@ -159,7 +159,8 @@ TcGridPart(i) ==
   CASE i \in 1..3 -> {[op |-> "tc.rt", a |-> [p |-> p, sfx |-> s, via |-> v]] :
                       p \in TcParGrid(<<0, 1, 2047>>[i]), s \in PusSfxGrid, v \in {"ctor"}}
     [] i = 4 -> {[op |-> "tc.rt", a |-> [p |-> p, sfx |-> <<>>, via |-> v]] :
-         p \in TcAckGrid \cup {TcSample}, v \in {"ctor", "sph", "composite", "setter"}}
+         p \in TcAckGrid \cup {TcSample}, v \in {"ctor", "sph", "composite", "setter", "bytearray"}}
+                \cup {[op |-> "tc.rt", a |-> [p |-> p, sfx |-> s, via |-> "bytearray"]] : p \in TcParGrid(1), s \in {<<>>, <<0>>}}
                 \cup {[op |-> "tc.rt", a |-> [p |-> p, sfx |-> <<>>, via |-> "setter"]] : p \in TcParGrid(2047)}
     [] i = 5 -> {[op |-> "tc.unpack", a |-> [octets |-> Take(TcEnc(TcOf(p)), k)]] :
          p \in {TcSample, [TcSample EXCEPT !.data = <<>>]}, k \in 0..15}
@@ -187,6 +188,10 @@ TmGridPart(i) ==
                       p \in TmParGrid(TmStampGrid[i]), s \in {<<>>, <<0>>}}
     [] i = 7 -> {[op |-> "tm.rt", a |-> [p |-> p, sfx |-> s, via |-> "tm"]] : p \in TmRefGrid, s \in PusSfxGrid}
                 \cup {[op |-> "tm.rt", a |-> [p |-> p, sfx |-> <<>>, via |-> "setter"]] : p \in TmRefGrid \cup TmParGrid(TmStampGrid[4])}
+                \cup {[op |-> "tm.rt", a |-> [p |-> [TmSample EXCEPT !.stamp = TmStampGrid[j], !.data = d], sfx |-> <<>>, via |-> "bytearray"]] :
+                        j \in 1..6, d \in PusDataGrid}
+                \cup {[op |-> "tm.rt", a |-> [p |-> [TmSample EXCEPT !.stamp = TmStampGrid[j], !.data = d], sfx |-> <<>>, via |-> "decoded-setter"]] :
+                        j \in 1..6, d \in PusDataGrid}
     [] i = 8 -> {[op |-> "tm.rt", a |-> [p |-> [p EXCEPT !.service = 17, !.msgcnt = 0], sfx |-> <<>>, via |-> "srv17"]] :
          p \in TmRefGrid \cup UNION {TmParGrid(TmStampGrid[j]) : j \in {1, 4}}}
     [] i = 9 -> {[op |-> "tm.unpack", a |-> [octets |-> Take(TmEnc(TmOf(p)), k), tslen |-> Len(p.stamp), via |-> v]] :
